@@ -161,10 +161,27 @@ def universe(c, t):
     for n, v in zip(pn, res):
         if v[0] == 'ok' and v[2] is not None:
             units[n] = Unit(n, v[2])
+    # a name must also be usable inside an expression: `as` (atto-second) is a keyword of fend,
+    # other names are shadowed by built-in identifiers
+    names = list(units)
+    probe = l2(c, ['(2 %s to %s) == (2 %s)' % (n, n, n) for n in names])
+    for n, o in zip(names, probe):
+        if o != ('o', 'true'):
+            del units[n]
+            c.dist['excluded-not-usable-in-expression'] = c.dist.get('excluded-not-usable-in-expression', 0) + 1
     return units
 
 
 def check(c):
+    try:
+        _check(c)
+    finally:
+        c.repr_drift += U.DRIFT['pi_approximation_flagged_exact']
+        if U.DRIFT['pi_approximation_flagged_exact']:
+            c.notes.append('values flagged exact by fend although they hold its approximation of pi (flag dropped in to_hashmap_and_scale): %d' % U.DRIFT['pi_approximation_flagged_exact'])
+
+
+def _check(c):
     r = c.rng
     c.rule = ('units grouped by dimension class (base-unit map after celsius/fahrenheit -> kelvin) from the implementation\'s own records; '
               'quick: ~3000 sampled ordered pairs (A,B) + ~800 triples, thorough: all ordered pairs of table names per class; random rational x '
